@@ -12,7 +12,9 @@ import (
 	"testing/synctest"
 	"time"
 
+	"github.com/ipfs/go-cid"
 	"github.com/ipni/go-libipni/dagsync"
+	"github.com/libp2p/go-libp2p/core/peer"
 
 	"verifharness/fixture"
 	"verifharness/sched"
@@ -386,6 +388,60 @@ func registerThenSync() *sched.Scenario {
 	}
 }
 
+// N8: an explicit sync whose caller cancels its context from inside the block
+// hook (at the hook call for block `at`): whatever the sync then returns, a
+// sync that reports success and moves the latest-synced value produces its
+// notification, and one that reports failure produces none and moves nothing.
+func callerCancelsFromHook(at int) *sched.Scenario {
+	name := fmt.Sprintf("N8-caller-cancels-from-hook-at-block%d", at)
+	return &sched.Scenario{Name: name,
+		Setup: func(e *sched.Exec) ([]sched.Thread, func()) {
+			w := schedfx.New(e, schedfx.Options{Pubs: 1, ChainLen: 3})
+			p, ch := w.Pubs[0], w.Chains[0]
+			p.Publisher.SetRoot(ch.Cids[2])
+			ths := []sched.Thread{{Name: "T", Fn: func() {
+				ctx, cancel := context.WithCancel(context.Background())
+				defer cancel()
+				inner := w.Hook("scoped")
+				hook := func(pid peer.ID, c cid.Cid, act dagsync.SegmentSyncActions) {
+					inner(pid, c, act)
+					if c.Equals(ch.Cids[at]) {
+						cancel()
+					}
+				}
+				e.Log("T call sync")
+				_, err := w.Sub.SyncAdChain(ctx, p.AddrInfo(), dagsync.ScopedBlockHook(hook))
+				e.Log("T ret sync ok=%v latest=%d", err == nil, w.Latest(0))
+			}}}
+			return ths, finish(e, w, nil)
+		},
+		Check: func(e *sched.Exec) []sched.Finding {
+			out := basics(e, name, []string{"T"})
+			f, _ := e.Data.(*final)
+			if f == nil || len(out) > 0 {
+				return out
+			}
+			for _, l := range e.Obs() {
+				if !strings.HasPrefix(l, "T ret sync ") {
+					continue
+				}
+				ok := strings.Contains(l, "ok=true")
+				moved := !strings.HasSuffix(l, "latest=0")
+				switch {
+				case ok && moved && fmt.Sprint(f.setup) != "[pub0[2] count=2]":
+					out = append(out, sched.Finding{Sig: name + ":completed-sync-without-its-notification", Msg: fmt.Sprintf("%s; the listener received %v", l, f.setup)})
+				case !ok && (moved || len(f.setup) != 0):
+					out = append(out, sched.Finding{Sig: name + ":failed-explicit-sync-left-traces", Msg: fmt.Sprintf("%s; the listener received %v", l, f.setup)})
+				case ok && !moved:
+					out = append(out, sched.Finding{Sig: name + ":success-without-latest-sync", Msg: l})
+				}
+				e.Class = fmt.Sprintf("ok=%v", ok)
+			}
+			return out
+		},
+	}
+}
+
 // N3: an announce-triggered sync that fails: exactly one notification, with the error.
 func failingAnnounce() *sched.Scenario {
 	name := "N3-failing-announce-sync"
@@ -724,7 +780,7 @@ func longStall(t *testing.T, r *vp.Recorder, n int) {
 
 func TestCheck(t *testing.T) {
 	r := vp.New("C14", "model_checking",
-		"scenarios on the real subscriber built with the instrumentation overlay (gated in-memory publishers, chains of 3 signed ads): N1 two publishers synced by two threads with a reading and a never-reading listener; N2 two successive explicit syncs of one publisher while a listener registers and cancels at scheduler-chosen moments and a reader polls (checking the latest-synced value at the moment each event arrives); N3 an announce-triggered sync with a failing block request; N4 an explicit / an announce-triggered sync racing with Close while a listener registered beforehand reads only at the end; N5 explicit syncs of two publishers and a failing announce-triggered sync (three notifications in flight); N6 an announce-triggered and an explicit sync (own scoped hook) of one publisher overlapping, each notification's count compared with the hook calls of its own sync; N7 one thread registering a listener, syncing, registering a second one, syncing again (registration precedes the sync by program order). Outside the scheduler: one listener that never reads and one that does, 150 (thorough 600) sequential syncs, each of which must return and reach the reader, and the backlog must arrive complete and in order in the end. All interleavings at the scheduling points (locks, atomics, channel operations of OnSyncFinished / cancel / the distributor, selects, spawns, requests, hook calls, observations) up to the preemption bound. states = distinct decision states; transitions = scheduling steps; traces = executions of the real code.",
+		"scenarios on the real subscriber built with the instrumentation overlay (gated in-memory publishers, chains of 3 signed ads): N1 two publishers synced by two threads with a reading and a never-reading listener; N2 two successive explicit syncs of one publisher while a listener registers and cancels at scheduler-chosen moments and a reader polls (checking the latest-synced value at the moment each event arrives); N3 an announce-triggered sync with a failing block request; N4 an explicit / an announce-triggered sync racing with Close while a listener registered beforehand reads only at the end; N5 explicit syncs of two publishers and a failing announce-triggered sync (three notifications in flight); N6 an announce-triggered and an explicit sync (own scoped hook) of one publisher overlapping, each notification's count compared with the hook calls of its own sync; N8 an explicit sync whose caller cancels its context from inside the block hook (at the newest / at the oldest block); N7 one thread registering a listener, syncing, registering a second one, syncing again (registration precedes the sync by program order). Outside the scheduler: one listener that never reads and one that does, 150 (thorough 600) sequential syncs, each of which must return and reach the reader, and the backlog must arrive complete and in order in the end. All interleavings at the scheduling points (locks, atomics, channel operations of OnSyncFinished / cancel / the distributor, selects, spawns, requests, hook calls, observations) up to the preemption bound. states = distinct decision states; transitions = scheduling steps; traces = executions of the real code.",
 		"cooperative scheduling at synchronization operations; every multi-case select is a priority select whose first-tried case is a scheduler decision (a non-default first case costs one unit of the bound, like a preemption); at most 3 listeners and 2 publishers",
 		"in N1 and N2 the chain blocks are already in the destination store (they are reported but not requested), so each sync makes only the head request",
 		"'registered before the sync finished' is judged by real-time order in the observation log: registration returned before the sync was invoked, cancel invoked after it returned",
@@ -738,7 +794,7 @@ func TestCheck(t *testing.T) {
 	if vp.Thorough() {
 		bound = 3
 	}
-	scs := []*sched.Scenario{registerThenSync(), syncVsClose("explicit"), syncVsClose("announce"), overlappingSyncsOfOnePublisher(), threeInFlight(), twoPublishers(), registerDuringSyncs(), failingAnnounce()}
+	scs := []*sched.Scenario{registerThenSync(), callerCancelsFromHook(1), callerCancelsFromHook(2), syncVsClose("explicit"), syncVsClose("announce"), overlappingSyncsOfOnePublisher(), threeInFlight(), twoPublishers(), registerDuringSyncs(), failingAnnounce()}
 	r.Bounds(map[string]any{"preemption_bound": bound, "scenarios": len(scs)})
 	budget := 0.0
 	if v := os.Getenv("VERIF_BUDGET_S"); v != "" {
